@@ -37,6 +37,7 @@ func main() {
 		os.Exit(2)
 	}
 	debug.SetGCPercent(400)
+	debug.SetMemoryLimit(24 << 30) // soft limit: the GC works harder instead of letting a violation flood exhaust the machine
 	if d := os.Getenv("VERIF_DIR"); d != "" {
 		engine.VerifDir = d
 	}
